@@ -452,7 +452,7 @@ def formats_rule(ctx, repo):
     is folded through parse_tap / parse_tzx / parse_pzx and get_edges: all must give the edge list the ROM loader timings define
     (pilot 8063 or 3223 x 2168, sync 667 + 735, bits 855 / 1710 twice, one second between blocks) and report the same data ranges."""
     from sa.core.classfold import ClassFolder
-    ctx.rule('C11.7-formats', 'the same logical tape as TAP, TZX (0x10 / 0x11 / 0x12+0x13+0x14) and PZX, built from the format specifications and folded through the parsers and get_edges, yields the reference edge list and the same data ranges', floor=10)
+    ctx.rule('C11.7-formats', 'the same logical tape as TAP, TZX (0x10 / 0x11 / 0x12+0x13+0x14) and PZX, built from the format specifications and folded through the parsers and get_edges, yields the reference edge list and the same data ranges; PZX DATA / TZX pure data with other bit encodings and partly used last bytes yield the edges their definitions give', floor=24)
     cf = ClassFolder(repo, 'tape')
     where = 'skoolkit/tape.py'
     def w16(v): return [v & 255, (v >> 8) & 255]
@@ -547,6 +547,70 @@ def formats_rule(ctx, repo):
                 ctx.violation(name, where, '%s: data ranges %s, expected %s' % (name, dbs, wr))
             else:
                 ctx.ok({'tape': tname, 'format': vname, 'edges': len(edges)})
+
+    # bit encodings other than the ROM's: PZX DATA with 0- and 1-bit pulse sequences of different lengths and a partly used last byte;
+    # TZX pure data with a partly used last byte
+    def custom_reference(pulses, s0, s1, data, bits, tail):
+        edges, t = [0], 0
+        for count, d in pulses:
+            for _ in range(count):
+                t += d; edges.append(t)
+        start = len(edges) - 1
+        n = 0
+        for byte in data:
+            for bit in range(8):
+                if n == bits:
+                    break
+                n += 1
+                for d in (s1 if byte & (0x80 >> bit) else s0):
+                    t += d; edges.append(t)
+        if tail:
+            t += tail; edges.append(t)
+        return edges, [(start, len(edges) - 1)]
+    customs = []
+    for s0, s1 in (((600,), (500, 700, 900)), ((400, 450, 500), (1000,)), ((855, 855), (1710, 1710)), ((300, 300, 300, 300), (650, 650))):
+        for used in (8, 5, 1):
+            data = [0xA5, 0x0F, 0xF0, 0x81]
+            bits = 8 * (len(data) - 1) + used
+            pulses = [(5, 1000), (1, 300), (1, 400)]
+            puls = []
+            for count, d in pulses:
+                puls += (w16(0x8000 | count) if count > 1 else []) + w16(d)
+            body = w32(0x80000000 | bits) + w16(0) + [len(s0), len(s1)]
+            for d in s0 + s1:
+                body += w16(d)
+            body += data
+            blob = list(b'PZXT') + w32(2) + [1, 0] + list(b'PULS') + w32(len(puls)) + puls + list(b'DATA') + w32(len(body)) + body
+            customs.append(('PZX DATA, 0-bit pulses %s, 1-bit pulses %s, %d bits used in the last byte' % (s0, s1, used), 'parse_pzx', bytes(blob), custom_reference(pulses, s0, s1, data, bits, 0)))
+    for used in (8, 3):
+        data = [0x5A, 0xC3, 0xFF]
+        blob = list(b'ZXTape!\x1a') + [1, 20] + [0x12] + w16(1000) + w16(4) + [0x14] + w16(700) + w16(1400) + [used] + w16(0) + w24(len(data)) + data
+        customs.append(('TZX pure data, %d bits used in the last byte' % used, 'parse_tzx', bytes(blob), custom_reference([(4, 1000)], (700, 700), (1400, 1400), data, 8 * (len(data) - 1) + used, 0)))
+    for name, parser, data, (we, wr) in customs:
+        try:
+            if parser == 'parse_tzx':
+                tp = cf.call_func('tape', parser, [data], {'info': False, 'timings': True})
+            else:
+                tp = cf.call_func('tape', parser, [data])
+            blks = [b for b in tp.blocks if b.timings]
+            for b in blks:
+                if not hasattr(b, 'keys'):
+                    b.keys = None
+            r = cf.call_func('tape', 'get_edges', [blks])
+            edges, dbs = list(r[0]), [(d.start, d.end) for d in r[1] if list(d.data)]
+        except NotLiteral as e:
+            ctx.limit(name, 'not foldable: %s' % e)
+            continue
+        except (KeyError, IndexError, ValueError, TypeError, AttributeError) as e:
+            ctx.violation(name, where, '%s: parsing or get_edges fails with %s: %s' % (name, type(e).__name__, e))
+            continue
+        if edges != we:
+            k = next((i for i, (x, y) in enumerate(zip(edges, we)) if x != y), min(len(edges), len(we)))
+            ctx.violation(name, where, '%s: edge %d is %s, the block definition gives %s (%d edges vs %d)' % (name, k, edges[k:k + 3], we[k:k + 3], len(edges), len(we)))
+        elif dbs != wr:
+            ctx.violation(name, where, '%s: data ranges %s, expected %s' % (name, dbs, wr))
+        else:
+            ctx.ok({'block': name, 'edges': len(edges)})
 
 def run(ctx):
     repo = pyfacts.Repo(ctx.repo_root)
